@@ -11,6 +11,7 @@ from ._vp import VPCheck
 ASSUME = [
     ((), 'complex'),
     (('real',), 'real'),
+    (('positive',), 'poswide'),
     (('positive',), 'pos'),
     (('negative',), 'neg'),
     (('nonnegative',), 'nonneg'),
@@ -30,7 +31,11 @@ EXPS = [Fraction(1, 2), Fraction(1, 3), Fraction(2, 3), Fraction(3, 2), Fraction
 def target(rng, syms):
     """an expression aimed at one refine / simplify rule"""
     s = lambda: rng.choice(syms)
-    q = lambda: FR(rng.choice(EXPS))
+    def q():
+        if rng.random() < 0.12:
+            a, b = rng.choice(((0, 1), (1, 1), (0, -2), (Fraction(1, 2), Fraction(1, 2)), (0, Fraction(1, 2))))
+            return CX(a, b)
+        return FR(rng.choice(EXPS))
     atom = lambda: rng.choice((s(), ('mul', s(), s()), ('add', s(), I(1)), ('neg', s()), ('mul', I(-2), s()), ('pow', s(), I(2)), ('sub', s(), s()),
                                ('mul', FR(Fraction(1, 2)), s())))
     t = rng.randrange(16)
